@@ -47,9 +47,10 @@ def gen_cases(ctx, n):
         cases.append(G.gen_case(ctx.rng, family=fam, want_range=False, noise_free=False))
     for form in G.FORMS:
         cases.append(G.gen_case(ctx.rng, form=form, want_range=False, noise_free=False, sy="none"))
-    # the same problems in other units: x and y scaled independently by 1e-6 ... 1e6 (small-unit
+    # the same problems in other units: x and y scaled independently by 1e-12 ... 1e12 (small-unit
     # data have covariances of 1e-13 and less; every comparison below is relative)
-    ext = [(1e-6, 1e-6), (1e-6, 1e6), (1e6, 1e-6), (1e6, 1e6), (1.0, 1e-6), (1e-3, 1e-3), (1.0, 1e6)]
+    ext = [(1e-6, 1e-6), (1e-12, 1e12), (1e6, 1e-6), (1e12, 1e12), (1.0, 1e-6), (1e-3, 1e-12),
+           (1.0, 1e6)]
     fams = ("linear", "quadratic", "polynomial", "exponential", "gaussian", "custom:sine",
             "custom:lorentz")
     for k, u in enumerate(ext):
